@@ -1265,6 +1265,27 @@ namespace bloch::runtime {
             for (const auto& v : cls->staticStorage) markValue(v);
         }
         markValue(m_returnValue);
+        // Objects owned from outside the heap graph are roots as well: interpreter
+        // temporaries (evaluated call arguments, a pending return value, an object whose
+        // constructor arguments are still being evaluated) hold a reference that is in
+        // none of the tables above. An object has such an owner exactly when it has more
+        // owners than references from other live heap objects ('objects' holds one each).
+        std::unordered_map<const Object*, long> heapRefs;
+        auto countRefs = [&heapRefs](const Value& v) {
+            if (v.type == Value::Type::Object && v.objectValue) {
+                ++heapRefs[v.objectValue.get()];
+            } else if (v.type == Value::Type::ObjectArray) {
+                for (const auto& o : v.objectArray)
+                    if (o)
+                        ++heapRefs[o.get()];
+            }
+        };
+        for (const auto& obj : objects)
+            for (const auto& f : obj->fields) countRefs(f);
+        for (const auto& obj : objects) {
+            if (!obj->marked && obj.use_count() - 1 > heapRefs[obj.get()])
+                markObject(obj);
+        }
         // Sweep unmarked non-tracked objects
         std::vector<std::shared_ptr<Object>> unreachable;
         for (auto& obj : objects) {
